@@ -10,6 +10,17 @@ import OlVerif.Lower.Reject
 namespace OlVerif.Sem
 variable {U V : Type}
 
+/-- what lowering the fragment may do to the flags that make the module prelude import helper modules: nothing,
+    except that a `while` (fragment `w = true`) asks for `itertools` -/
+def okFlags (w : Bool) (a b : St) : Prop :=
+  a.useImportlib = b.useImportlib ∧ a.usePreset = b.usePreset ∧ (w = false → a.useItertools = b.useItertools)
+
+theorem okFlags_of_same {w : Bool} {a b : St} (h : sameFlags a b) : okFlags w a b := ⟨h.2.1, h.2.2, fun _ => h.1⟩
+theorem okFlags_refl {w : Bool} (a : St) : okFlags w a a := ⟨rfl, rfl, fun _ => rfl⟩
+theorem okFlags_fresh {w : Bool} (a : St) (p : String) : okFlags w (a.fresh p).2 a := ⟨rfl, rfl, fun _ => rfl⟩
+theorem okFlags_trans {w : Bool} {a b c : St} (h1 : okFlags w a b) (h2 : okFlags w b c) : okFlags w a c :=
+  ⟨h1.1.trans h2.1, h1.2.1.trans h2.2.1, fun hw => (h1.2.2 hw).trans (h2.2.2 hw)⟩
+
 theorem ite_cases {α : Type} {c : Prop} [Decidable c] {a b : Except Err α} {r : α}
     (h : (if c then a else b) = .ok r) : (c ∧ a = .ok r) ∨ (¬ c ∧ b = .ok r) := by
   split at h
@@ -42,14 +53,15 @@ theorem liveOk_single (st : St) (p : String) : LiveOk [(st.fresh p).1] (st.fresh
 
 /-! ### statements -/
 
-theorem lowerSimple_sim (W : World U V) (hS : LawfulSeq W) (cx : Ctx) (hn : cx.nsp.kind = .module) {s : Stmt} (hs : SimpleS s)
-    (hnif : ∀ c b e, s ≠ .if_ c b e) (hnfor : ∀ tg i b e, s ≠ .for_ tg i b e)
+theorem lowerSimple_sim {w : Bool} (W : World U V) (hS : LawfulSeq W) (cx : Ctx) (hn : cx.nsp.kind = .module) {s : Stmt} (hs : SimpleS w s)
+    (hnif : ∀ c b e, s ≠ .if_ c b e) (hnfor : ∀ tg i b e, s ≠ .for_ tg i b e) (hnwh : ∀ c b e, s ≠ .while_ c b e)
     {u u' : U} (hx : ExecS W s u u') (t : T V) (st : St) (es : List Expr) (st' : St)
-    (h : lowerStmt cx s st = .ok (es, st')) : (∃ t', Seq W es u t u' t') ∧ sameFlags st' st := by
+    (h : lowerStmt cx s st = .ok (es, st')) : (∃ t', Seq W es u t u' t') ∧ okFlags w st' st := by
   cases hx with
   | ifTrue c b e => exact absurd rfl (hnif c b e)
   | ifFalse c b e => exact absurd rfl (hnif c b e)
   | for_ tg i b e => exact absurd rfl (hnfor tg i b e)
+  | while_ c b e => exact absurd rfl (hnwh c b e)
   | expr e he =>
       cases hs with
       | expr _ hc =>
@@ -57,15 +69,15 @@ theorem lowerSimple_sim (W : World U V) (hS : LawfulSeq W) (cx : Ctx) (hn : cx.n
         obtain ⟨e', he', h⟩ := bind_ok h
         cases pure_ok h
         rw [transf_module_id _ hn [] e e' he']
-        exact ⟨⟨t, Seq.cons ((frame W he hc).2 t) (Seq.nil W _ _)⟩, sameFlags_refl _⟩
+        exact ⟨⟨t, Seq.cons ((frame W he hc).2 t) (Seq.nil W _ _)⟩, okFlags_refl _⟩
   | pass u =>
       simp only [lowerStmt] at h
       cases ok_ok h
-      exact ⟨⟨t, Seq.cons (.const .ellipsis u t) (Seq.nil W _ _)⟩, sameFlags_refl _⟩
+      exact ⟨⟨t, Seq.cons (.const .ellipsis u t) (Seq.nil W _ _)⟩, okFlags_refl _⟩
   | global_ ns u =>
       simp only [lowerStmt] at h
       cases ok_ok h
-      exact ⟨⟨t, Seq.nil W _ _⟩, sameFlags_refl _⟩
+      exact ⟨⟨t, Seq.nil W _ _⟩, okFlags_refl _⟩
   | assign ts value hv hall =>
       cases hs with
       | assign _ _ hne hts hcv =>
@@ -80,7 +92,7 @@ theorem lowerSimple_sim (W : World U V) (hS : LawfulSeq W) (cx : Ctx) (hn : cx.n
           have htmp := isTemp_fresh st "assign"
           obtain ⟨⟨t', r1⟩, hf⟩ := assignTargets_sim W hS hn (st.fresh "assign").1 htmp ts hts hall ((_, _) :: t) _ (liveOk_single st "assign")
             (lookup_head _ _ t) r st2 hr
-          exact ⟨⟨t', Seq.cons (.walrusT _ value htmp fv) r1⟩, sameFlags_trans hf (sameFlags_fresh st "assign")⟩
+          exact ⟨⟨t', Seq.cons (.walrusT _ value htmp fv) r1⟩, okFlags_trans (okFlags_of_same hf) (okFlags_fresh st "assign")⟩
         · -- a single target that is a name or a pattern: the value expression is evaluated in place
           match ts, hne, hts, hall, hcond, h with
           | [tg], _, hts, hall, hcond, h =>
@@ -101,7 +113,7 @@ theorem lowerSimple_sim (W : World U V) (hS : LawfulSeq W) (cx : Ctx) (hn : cx.n
                 rw [getAssign_module hn] at hr
                 cases hr
                 cases pure_ok ha
-                exact ⟨⟨t, Seq.cons (.walrus x value hxn fv) (Seq.nil W _ _)⟩, sameFlags_refl _⟩
+                exact ⟨⟨t, Seq.cons (.walrus x value hxn fv) (Seq.nil W _ _)⟩, okFlags_refl _⟩
               | attr o a _ _ => simp at hcond
               | sub o i _ _ _ => simp at hcond
               | @tuple elts _ items vals _ u1 _ hit hvals heach =>
@@ -115,7 +127,7 @@ theorem lowerSimple_sim (W : World U V) (hS : LawfulSeq W) (cx : Ctx) (hn : cx.n
                     hvals 0 (by simp) (starAt_init elts hsc) (fun j => by simp) false (by simp)
                     [(st.fresh "assign").1] (((st.fresh "assign").1, W.tupleOf items) :: t) (st.fresh "assign").2 (liveOk_single st "assign")
                     (by simp) (lookup_head _ _ _) rest st3 hr
-                  exact ⟨⟨t', Seq.cons (.walrusT _ _ htmp (.tupleCall value fv hit)) hseq⟩, sameFlags_trans hfl (sameFlags_fresh _ _)⟩
+                  exact ⟨⟨t', Seq.cons (.walrusT _ _ htmp (.tupleCall value fv hit)) hseq⟩, okFlags_trans (okFlags_of_same hfl) (okFlags_fresh _ _)⟩
               | @list elts _ items vals _ u1 _ hit hvals heach =>
                 cases hst with
                 | list _ hallE hsc =>
@@ -127,7 +139,7 @@ theorem lowerSimple_sim (W : World U V) (hS : LawfulSeq W) (cx : Ctx) (hn : cx.n
                     hvals 0 (by simp) (starAt_init elts hsc) (fun j => by simp) false (by simp)
                     [(st.fresh "assign").1] (((st.fresh "assign").1, W.tupleOf items) :: t) (st.fresh "assign").2 (liveOk_single st "assign")
                     (by simp) (lookup_head _ _ _) rest st3 hr
-                  exact ⟨⟨t', Seq.cons (.walrusT _ _ htmp (.tupleCall value fv hit)) hseq⟩, sameFlags_trans hfl (sameFlags_fresh _ _)⟩
+                  exact ⟨⟨t', Seq.cons (.walrusT _ _ htmp (.tupleCall value fv hit)) hseq⟩, okFlags_trans (okFlags_of_same hfl) (okFlags_fresh _ _)⟩
               | starred sub hin =>
                 simp only [assignAuto] at ha
                 cases ha
@@ -147,7 +159,7 @@ theorem lowerSimple_sim (W : World U V) (hS : LawfulSeq W) (cx : Ctx) (hn : cx.n
         cases pure_ok h
         have f1 := (frame W hload (.name x hxn)).2 t
         have f2 := (frame W hval hcv).2 t
-        exact ⟨⟨t, Seq.cons (.walrus x _ hxn (.iop _ op _ f1 f2 hiop)) (Seq.nil W _ _)⟩, sameFlags_fresh _ _⟩
+        exact ⟨⟨t, Seq.cons (.walrus x _ hxn (.iop _ op _ f1 f2 hiop)) (Seq.nil W _ _)⟩, okFlags_fresh _ _⟩
   | augAttr o a op value ho hget hval hiop hset =>
       cases hs with
       | aug _ _ _ hst hcv =>
@@ -169,7 +181,7 @@ theorem lowerSimple_sim (W : World U V) (hS : LawfulSeq W) (cx : Ctx) (hn : cx.n
             (.attr _ a (.temp _ _ _ _ hO (lookup_head _ _ _)) hget)) (Seq.cons
             (.setattr _ a _ (.temp _ _ _ _ hO ((lookup_skip hne _ _).trans (lookup_head _ _ _)))
               (.iop _ op _ (.temp _ _ _ _ hT (lookup_head _ _ _)) ((frame W hval hcv).2 _) hiop) hset) (Seq.nil W _ _)))⟩, ?_⟩
-          exact sameFlags_trans (sameFlags_fresh _ _) (sameFlags_fresh _ _)
+          exact okFlags_trans (okFlags_fresh _ _) (okFlags_fresh _ _)
   | augSub o i op value ho hi hget hval hiop hset =>
       cases hs with
       | aug _ _ _ hst hcv =>
@@ -200,7 +212,7 @@ theorem lowerSimple_sim (W : World U V) (hS : LawfulSeq W) (cx : Ctx) (hn : cx.n
               (.temp _ _ _ _ hO ((lookup_skip hOT _ _).trans ((lookup_skip hOS _ _).trans (lookup_head _ _ _))))
               (.temp _ _ _ _ hS ((lookup_skip hST _ _).trans (lookup_head _ _ _)))
               (.iop _ op _ (.temp _ _ _ _ hT (lookup_head _ _ _)) ((frame W hval hcv).2 _) hiop) hset) (Seq.nil W _ _))))⟩, ?_⟩
-          exact sameFlags_trans (sameFlags_fresh _ _) (sameFlags_trans (sameFlags_fresh _ _) (sameFlags_fresh _ _))
+          exact okFlags_trans (okFlags_fresh _ _) (okFlags_trans (okFlags_fresh _ _) (okFlags_fresh _ _))
 
 
 /-! ### wrappers -/
@@ -244,23 +256,25 @@ theorem seq_nil_inv {W : World U V} {u u' : U} {t t' : T V} (h : Seq W [] u t u'
 theorem flowKind_module {cx : Ctx} (hn : cx.nsp.kind = .module) (hl : cx.loops = []) : cx.flowKind = .none := by
   simp [Ctx.flowKind, hn, hl]
 
-theorem simple_not_direct {s : Stmt} (hs : SimpleS s) : s.isDirect = false := by
+theorem simple_not_direct {w : Bool} {s : Stmt} (hs : SimpleS w s) : s.isDirect = false := by
   cases hs <;> rfl
 
 mutual
-  theorem simple_hasRet : ∀ (s : Stmt), SimpleS s → hasRet s = false
+  theorem simple_hasRet {w : Bool} : ∀ (s : Stmt), SimpleS w s → hasRet s = false
     | .if_ _ b e, hs => by
         cases hs with
         | if_ _ _ _ _ hb he => simp [hasRet, simpleL_hasRetL b hb, simpleL_hasRetL e he]
     | .for_ _ _ b e, hs => by
         cases hs with
         | for_ _ _ _ _ _ _ hb he => simp [hasRet, simpleL_hasRetL b hb, simpleL_hasRetL e he]
+    | .while_ _ b e, hs => by
+        cases hs with
+        | while_ _ _ _ _ _ _ hb he => simp [hasRet, simpleL_hasRetL b hb, simpleL_hasRetL e he]
     | .expr _, _ => rfl
     | .pass_, _ => rfl
     | .global_ _, _ => rfl
     | .assign .., _ => rfl
     | .augAssign .., _ => rfl
-    | .while_ .., hs => by cases hs
     | .break_, hs => by cases hs
     | .continue_, hs => by cases hs
     | .annAssign .., hs => by cases hs
@@ -271,26 +285,28 @@ mutual
     | .import_ _, hs => by cases hs
     | .importFrom .., hs => by cases hs
     | .other .., hs => by cases hs
-  theorem simpleL_hasRetL : ∀ (ss : List Stmt), (∀ s ∈ ss, SimpleS s) → hasRetL ss = false
+  theorem simpleL_hasRetL {w : Bool} : ∀ (ss : List Stmt), (∀ s ∈ ss, SimpleS w s) → hasRetL ss = false
     | [], _ => rfl
     | s :: ss, hs => by
         simp [hasRetL, simple_hasRet s (hs s (by simp)), simpleL_hasRetL ss (fun x hx => hs x (by simp [hx]))]
 end
 
 mutual
-  theorem simple_hasBC (bo : Bool) : ∀ (s : Stmt), SimpleS s → hasBC bo s = false
+  theorem simple_hasBC {w : Bool} (bo : Bool) : ∀ (s : Stmt), SimpleS w s → hasBC bo s = false
     | .if_ _ b e, hs => by
         cases hs with
         | if_ _ _ _ _ hb he => simp [hasBC, simpleL_hasBCL bo b hb, simpleL_hasBCL bo e he]
     | .for_ _ _ b e, hs => by
         cases hs with
         | for_ _ _ _ _ _ _ hb he => simp [hasBC, simpleL_hasBCL bo e he]
+    | .while_ _ b e, hs => by
+        cases hs with
+        | while_ _ _ _ _ _ _ hb he => simp [hasBC, simpleL_hasBCL bo e he]
     | .expr _, _ => rfl
     | .pass_, _ => rfl
     | .global_ _, _ => rfl
     | .assign .., _ => rfl
     | .augAssign .., _ => rfl
-    | .while_ .., hs => by cases hs
     | .break_, hs => by cases hs
     | .continue_, hs => by cases hs
     | .annAssign .., hs => by cases hs
@@ -301,38 +317,40 @@ mutual
     | .import_ _, hs => by cases hs
     | .importFrom .., hs => by cases hs
     | .other .., hs => by cases hs
-  theorem simpleL_hasBCL (bo : Bool) : ∀ (ss : List Stmt), (∀ s ∈ ss, SimpleS s) → hasBCL bo ss = false
+  theorem simpleL_hasBCL {w : Bool} (bo : Bool) : ∀ (ss : List Stmt), (∀ s ∈ ss, SimpleS w s) → hasBCL bo ss = false
     | [], _ => rfl
     | s :: ss, hs => by
         simp [hasBCL, simple_hasBC bo s (hs s (by simp)), simpleL_hasBCL bo ss (fun x hx => hs x (by simp [hx]))]
 end
 
-theorem simple_mayInt (fk : FlowKind) {s : Stmt} (hs : SimpleS s) : mayInt fk s = false := by
+theorem simple_mayInt {w : Bool} (fk : FlowKind) {s : Stmt} (hs : SimpleS w s) : mayInt fk s = false := by
   cases fk <;> simp [mayInt, simple_hasRet s hs, simple_hasBC false s hs]
 
-theorem simpleL_anyIntL : ∀ (ss : List Stmt), (∀ s ∈ ss, SimpleS s) → anyIntL ss = false
+theorem simpleL_anyIntL {w : Bool} : ∀ (ss : List Stmt), (∀ s ∈ ss, SimpleS w s) → anyIntL ss = false
   | [], _ => rfl
   | s :: ss, hs => by simp [anyIntL, simple_mayInt .loop (hs s (by simp)), simpleL_anyIntL ss (fun x hx => hs x (by simp [hx]))]
 
-theorem simpleL_hasBreakL : ∀ (ss : List Stmt), (∀ s ∈ ss, SimpleS s) → hasBreakL ss = false
+theorem simpleL_hasBreakL {w : Bool} : ∀ (ss : List Stmt), (∀ s ∈ ss, SimpleS w s) → hasBreakL ss = false
   | [], _ => rfl
   | s :: ss, hs => by
       simp [hasBreakL, simple_hasRet s (hs s (by simp)), simple_hasBC true s (hs s (by simp)), simpleL_hasBreakL ss (fun x hx => hs x (by simp [hx]))]
 
 mutual
-  theorem simple_guardsInS (fk : FlowKind) : ∀ (s : Stmt), SimpleS s → guardsInS fk s = false
+  theorem simple_guardsInS {w : Bool} (fk : FlowKind) : ∀ (s : Stmt), SimpleS w s → guardsInS fk s = false
     | .if_ _ b e, hs => by
         cases hs with
         | if_ _ _ _ _ hb he => simp [guardsInS, simpleL_guardsInL fk b hb, simpleL_guardsInL fk e he]
     | .for_ _ _ b e, hs => by
         cases hs with
         | for_ _ _ _ _ _ _ hb he => simp [guardsInS, simpleL_guardsInL fk e he]
+    | .while_ _ b e, hs => by
+        cases hs with
+        | while_ _ _ _ _ _ _ hb he => simp [guardsInS, simpleL_guardsInL fk e he]
     | .expr _, _ => rfl
     | .pass_, _ => rfl
     | .global_ _, _ => rfl
     | .assign .., _ => rfl
     | .augAssign .., _ => rfl
-    | .while_ .., hs => by cases hs
     | .break_, hs => by cases hs
     | .continue_, hs => by cases hs
     | .annAssign .., hs => by cases hs
@@ -343,7 +361,7 @@ mutual
     | .import_ _, hs => by cases hs
     | .importFrom .., hs => by cases hs
     | .other .., hs => by cases hs
-  theorem simpleL_guardsInL (fk : FlowKind) : ∀ (ss : List Stmt), (∀ s ∈ ss, SimpleS s) → guardsInL fk ss = false
+  theorem simpleL_guardsInL {w : Bool} (fk : FlowKind) : ∀ (ss : List Stmt), (∀ s ∈ ss, SimpleS w s) → guardsInL fk ss = false
     | [], _ => rfl
     | s :: ss, hs => by
         simp [guardsInL, simple_not_direct (hs s (by simp)), simple_mayInt fk (hs s (by simp)), simple_guardsInS fk s (hs s (by simp)),
@@ -353,19 +371,19 @@ end
 /-! ### the fragment never requests helper imports (static) -/
 
 theorem assignTargets_flags {n : Nsp} (hn : n.kind = .module) (v : Expr) : ∀ (ts : List Expr), (∀ tg ∈ ts, SimpleT tg) →
-    ∀ (st : St) (es : List Expr) (st' : St), assignTargets n v ts st = .ok (es, st') → sameFlags st' st
-  | [], _, st, es, st', h => by simp only [assignTargets] at h; cases h; exact sameFlags_refl _
+    ∀ (st : St) (es : List Expr) (st' : St), assignTargets n v ts st = .ok (es, st') → okFlags w st' st
+  | [], _, st, es, st', h => by simp only [assignTargets] at h; cases h; exact okFlags_refl _
   | tg :: ts, hs, st, es, st', h => by
       simp only [assignTargets] at h
       obtain ⟨⟨a, st1⟩, ha, h⟩ := bind_ok h
       obtain ⟨⟨b, st2⟩, hb, h⟩ := bind_ok h
       cases pure_ok h
-      exact sameFlags_trans (assignTargets_flags hn v ts (fun x hx => hs x (by simp [hx])) st1 b st2 hb)
-        (assignAuto_flags hn tg (hs tg (by simp)) false v st a st1 ha)
+      exact okFlags_trans (assignTargets_flags hn v ts (fun x hx => hs x (by simp [hx])) st1 b st2 hb)
+        (okFlags_of_same (assignAuto_flags hn tg (hs tg (by simp)) false v st a st1 ha))
 
 mutual
-  theorem lowerStmt_flags : ∀ (s : Stmt) (cx : Ctx), cx.nsp.kind = .module →
-      SimpleS s → ∀ (st : St) (es : List Expr) (st' : St), lowerStmt cx s st = .ok (es, st') → sameFlags st' st
+  theorem lowerStmt_flags {w : Bool} : ∀ (s : Stmt) (cx : Ctx), cx.nsp.kind = .module →
+      SimpleS w s → ∀ (st : St) (es : List Expr) (st' : St), lowerStmt cx s st = .ok (es, st') → okFlags w st' st
     | .if_ test body orelse, cx, hn, hs, st, es, st', h => by
         cases hs with
         | if_ _ _ _ hct hsb hso =>
@@ -373,13 +391,25 @@ mutual
           obtain ⟨⟨b, st1⟩, hb, h⟩ := bind_ok h
           obtain ⟨⟨o, st2⟩, ho, h⟩ := bind_ok h
           obtain ⟨t', ht', h⟩ := bind_ok h
-          have hfl : sameFlags st2 st :=
-            sameFlags_trans (lowerBlock_flags orelse cx hn hso st1 o st2 ho) (lowerBlock_flags body cx hn hsb st b st1 hb)
+          have hfl : okFlags w st2 st :=
+            okFlags_trans (lowerBlock_flags orelse cx hn hso st1 o st2 ho) (lowerBlock_flags body cx hn hsb st b st1 hb)
           cases hst : cx.cfg.ifStyle with
           | ifExpr => simp only [hst] at h; cases pure_ok h; exact hfl
           | shortCircuit =>
             simp only [hst] at h
             rcases ite_cases h with ⟨_, h⟩ | ⟨_, h⟩ <;> (cases pure_ok h; exact hfl)
+    | .while_ test body orelse, cx, hn, hs, st, es, st', h => by
+        cases hs with
+        | while_ _ _ _ hw hct hnw hsb hso =>
+          simp only [lowerStmt, simpleL_hasBreakL body hsb, simpleL_guardsInL .loop body hsb] at h
+          obtain ⟨⟨b, st1⟩, hb, h⟩ := bind_ok h
+          obtain ⟨⟨o, st2⟩, ho, h⟩ := bind_ok h
+          obtain ⟨t', _, h⟩ := bind_ok h
+          cases pure_ok h
+          have h1 := lowerBlock_flags body _ (by exact hn) hsb _ b st1 hb
+          have h2 := lowerBlock_flags orelse cx hn hso st1 o st2 ho
+          have h12 := okFlags_trans h2 h1
+          exact ⟨h12.1, h12.2.1, fun hf => by rw [hw] at hf; cases hf⟩
     | .for_ target iter body orelse, cx, hn, hs, st, es, st', h => by
         cases hs with
         | for_ _ _ _ _ hst hci hsb hso =>
@@ -388,17 +418,17 @@ mutual
           obtain ⟨⟨o, st2⟩, ho, h⟩ := bind_ok h
           obtain ⟨⟨asg, st4⟩, ha, h⟩ := bind_ok h
           obtain ⟨itr, _, h⟩ := bind_ok h
-          have hfl : sameFlags st4 st :=
-            sameFlags_trans (assignAuto_flags hn target hst false _ _ asg st4 ha) (sameFlags_trans (sameFlags_fresh _ _)
-              (sameFlags_trans (lowerBlock_flags orelse cx hn hso st1 o st2 ho)
-                (sameFlags_trans (lowerBlock_flags body _ (by exact hn) hsb _ b st1 hb) (sameFlags_trans (sameFlags_fresh _ _) (sameFlags_fresh _ _)))))
+          have hfl : okFlags w st4 st :=
+            okFlags_trans (okFlags_of_same (assignAuto_flags hn target hst false _ _ asg st4 ha)) (okFlags_trans (okFlags_fresh _ _)
+              (okFlags_trans (lowerBlock_flags orelse cx hn hso st1 o st2 ho)
+                (okFlags_trans (lowerBlock_flags body _ (by exact hn) hsb _ b st1 hb) (okFlags_trans (okFlags_fresh _ _) (okFlags_fresh _ _)))))
           rcases ite_cases h with ⟨_, h⟩ | ⟨_, h⟩ <;> (cases pure_ok h; exact hfl)
     | .expr e, cx, hn, hs, st, es, st', h => by
         simp only [lowerStmt] at h
         obtain ⟨e', _, h⟩ := bind_ok h
-        cases pure_ok h; exact sameFlags_refl _
-    | .pass_, cx, hn, hs, st, es, st', h => by simp only [lowerStmt] at h; cases ok_ok h; exact sameFlags_refl _
-    | .global_ _, cx, hn, hs, st, es, st', h => by simp only [lowerStmt] at h; cases ok_ok h; exact sameFlags_refl _
+        cases pure_ok h; exact okFlags_refl _
+    | .pass_, cx, hn, hs, st, es, st', h => by simp only [lowerStmt] at h; cases ok_ok h; exact okFlags_refl _
+    | .global_ _, cx, hn, hs, st, es, st', h => by simp only [lowerStmt] at h; cases ok_ok h; exact okFlags_refl _
     | .assign ts value, cx, hn, hs, st, es, st', h => by
         cases hs with
         | assign _ _ hne hts hcv =>
@@ -407,7 +437,7 @@ mutual
           rcases ite_cases h with ⟨_, h⟩ | ⟨_, h⟩
           · obtain ⟨⟨r, st2⟩, hr, h⟩ := bind_ok h
             cases pure_ok h
-            exact sameFlags_trans (assignTargets_flags hn _ ts hts _ r st2 hr) (sameFlags_fresh st "assign")
+            exact okFlags_trans (assignTargets_flags hn _ ts hts _ r st2 hr) (okFlags_fresh st "assign")
           · exact assignTargets_flags hn _ ts hts _ _ _ h
     | .augAssign tg op value, cx, hn, hs, st, es, st', h => by
         cases hs with
@@ -419,20 +449,19 @@ mutual
             obtain ⟨l, _, h⟩ := bind_ok h
             obtain ⟨r, _, h⟩ := bind_ok h
             cases pure_ok h
-            exact sameFlags_fresh _ _
+            exact okFlags_fresh _ _
           | attr o a _ =>
             obtain ⟨o', _, h⟩ := bind_ok h
             cases pure_ok h
-            exact sameFlags_trans (sameFlags_fresh _ _) (sameFlags_fresh _ _)
+            exact okFlags_trans (okFlags_fresh _ _) (okFlags_fresh _ _)
           | sub o i _ _ _ =>
             obtain ⟨o', _, h⟩ := bind_ok h
             obtain ⟨i', _, h⟩ := bind_ok h
             cases pure_ok h
-            exact sameFlags_trans (sameFlags_fresh _ _) (sameFlags_trans (sameFlags_fresh _ _) (sameFlags_fresh _ _))
+            exact okFlags_trans (okFlags_fresh _ _) (okFlags_trans (okFlags_fresh _ _) (okFlags_fresh _ _))
           | tuple _ _ _ => cases h
           | list _ _ _ => cases h
           | starred _ _ => cases h
-    | .while_ .., _, _, hs, _, _, _, _ => by cases hs
     | .break_, _, _, hs, _, _, _, _ => by cases hs
     | .continue_, _, _, hs, _, _, _, _ => by cases hs
     | .annAssign .., _, _, hs, _, _, _, _ => by cases hs
@@ -444,9 +473,9 @@ mutual
     | .importFrom .., _, _, hs, _, _, _, _ => by cases hs
     | .other .., _, _, hs, _, _, _, _ => by cases hs
 
-  theorem lowerBlock_flags : ∀ (ss : List Stmt) (cx : Ctx), cx.nsp.kind = .module →
-      (∀ s ∈ ss, SimpleS s) → ∀ (st : St) (es : List Expr) (st' : St), lowerBlock cx ss st = .ok (es, st') → sameFlags st' st
-    | [], cx, _, _, st, es, st', h => by simp only [lowerBlock] at h; cases h; exact sameFlags_refl _
+  theorem lowerBlock_flags {w : Bool} : ∀ (ss : List Stmt) (cx : Ctx), cx.nsp.kind = .module →
+      (∀ s ∈ ss, SimpleS w s) → ∀ (st : St) (es : List Expr) (st' : St), lowerBlock cx ss st = .ok (es, st') → okFlags w st' st
+    | [], cx, _, _, st, es, st', h => by simp only [lowerBlock] at h; cases h; exact okFlags_refl _
     | s :: ss, cx, hn, hs, st, es, st', h => by
         simp only [lowerBlock] at h
         obtain ⟨⟨a, st1⟩, ha, h⟩ := bind_ok h
@@ -457,8 +486,18 @@ mutual
         · simp only [Bool.false_eq_true, if_false] at h
           obtain ⟨⟨rest, st2⟩, hr, h⟩ := bind_ok h
           cases pure_ok h
-          exact sameFlags_trans (lowerBlock_flags ss cx hn (fun x hx => hs x (by simp [hx])) st1 rest st2 hr) f1
+          exact okFlags_trans (lowerBlock_flags ss cx hn (fun x hx => hs x (by simp [hx])) st1 rest st2 hr) f1
 end
+
+/-- the iterations of the takewhile comprehension follow the iterations of the `while` statement -/
+theorem whileIter_sim (W : World U V) (elt : Expr) {test : Expr} {body : List Stmt} (hct : Clean test)
+    (hstep : ∀ {u2 u3 : U}, ExecB W body u2 u3 → ∀ (t : T V), ∃ ev t', Ev W elt u2 t ev u3 t') :
+    ∀ {u u' : U}, WhileIter W test body u u' → ∀ (t : T V), ∃ vs t', WIter W test elt u t vs u' t'
+  | _, _, .done _ _ ht hf, t => ⟨[], t, .done test elt ((frame W ht hct).2 t) hf⟩
+  | _, _, .step _ _ ht htr hb hrest, t => by
+      obtain ⟨ev, t1, he⟩ := hstep hb t
+      obtain ⟨vs, t2, hi⟩ := whileIter_sim W elt hct hstep hrest t1
+      exact ⟨ev :: vs, t2, .step test elt ((frame W ht hct).2 t) htr he hi⟩
 
 /-- the iterations of the comprehension follow the iterations of the `for` statement -/
 theorem forIter_sim (W : World U V) (elt : Expr) (item : String) {target : Expr} {body : List Stmt} {it : V}
@@ -473,9 +512,9 @@ theorem forIter_sim (W : World U V) (elt : Expr) (item : String) {target : Expr}
 /-! ### statements and blocks, with `if` and `for` at any nesting -/
 
 mutual
-  theorem lowerStmt_sim (W : World U V) (hW : Lawful W) (hS : LawfulSeq W) : ∀ (s : Stmt) (cx : Ctx), cx.nsp.kind = .module →
-      SimpleS s → ∀ {u u' : U}, ExecS W s u u' → ∀ (t : T V) (st : St) (es : List Expr) (st' : St),
-      lowerStmt cx s st = .ok (es, st') → (∃ t', Seq W es u t u' t') ∧ sameFlags st' st
+  theorem lowerStmt_sim {w : Bool} (W : World U V) (hW : Lawful W) (hS : LawfulSeq W) : ∀ (s : Stmt) (cx : Ctx), cx.nsp.kind = .module →
+      SimpleS w s → ∀ {u u' : U}, ExecS W s u u' → ∀ (t : T V) (st : St) (es : List Expr) (st' : St),
+      lowerStmt cx s st = .ok (es, st') → (∃ t', Seq W es u t u' t') ∧ okFlags w st' st
     | .if_ test body orelse, cx, hn, hs, u, u', hx, t, st, es, st', h => by
         cases hs with
         | if_ _ _ _ hct hsb hso =>
@@ -484,10 +523,10 @@ mutual
           obtain ⟨⟨o, st2⟩, ho, h⟩ := bind_ok h
           obtain ⟨t', ht', h⟩ := bind_ok h
           rw [transf_module_id _ hn [] test t' ht'] at h
-          have hfl : sameFlags st2 st := by
+          have hfl : okFlags w st2 st := by
             cases hx with
-            | ifTrue _ _ _ _ _ hxb => exact sameFlags_trans (lowerBlock_flags orelse cx hn hso st1 o st2 ho) (lowerBlock_flags body cx hn hsb st b st1 hb)
-            | ifFalse _ _ _ _ _ hxb => exact sameFlags_trans (lowerBlock_flags orelse cx hn hso st1 o st2 ho) (lowerBlock_flags body cx hn hsb st b st1 hb)
+            | ifTrue _ _ _ _ _ hxb => exact okFlags_trans (lowerBlock_flags orelse cx hn hso st1 o st2 ho) (lowerBlock_flags body cx hn hsb st b st1 hb)
+            | ifFalse _ _ _ _ _ hxb => exact okFlags_trans (lowerBlock_flags orelse cx hn hso st1 o st2 ho) (lowerBlock_flags body cx hn hsb st b st1 hb)
           cases hx with
           | ifTrue _ _ _ htest htr hxb =>
             have ft := (frame W htest hct).2 t
@@ -529,6 +568,37 @@ mutual
                 -- the test is false: `and` yields its value, `or` takes its truth value again (the same, by `retest`)
                 have hand := Ev.andF (W := W) test (.list [wrapExprs cx.cfg b]) ft htr
                 exact ⟨⟨to, Seq.cons (.orF _ _ hand (hW.retest _ _ _ _ htr) hv) (Seq.nil W _ _)⟩, hfl⟩
+    | .while_ test body orelse, cx, hn, hs, u, u', hx, t, st, es, st', h => by
+        cases hs with
+        | while_ _ _ _ hw hct hnw hsb hso =>
+          cases hx with
+          | @while_ _ _ _ _ u1 _ hiter horelse =>
+            have hflags := lowerStmt_flags (.while_ test body orelse) cx hn (.while_ _ _ _ hw hct hnw hsb hso) st es st' h
+            simp only [lowerStmt, simpleL_hasBreakL body hsb, simpleL_guardsInL .loop body hsb] at h
+            obtain ⟨⟨b, st1⟩, hb, h⟩ := bind_ok h
+            obtain ⟨⟨o, st2⟩, ho, h⟩ := bind_ok h
+            obtain ⟨t', ht', h⟩ := bind_ok h
+            rw [transf_module_id _ hn [] test t' ht'] at h
+            cases pure_ok h
+            have hstep : ∀ {w2 w3 : U}, ExecB W body w2 w3 → ∀ (t0 : T V), ∃ ev t1, Ev W (wrapExprs cx.cfg b) w2 t0 ev w3 t1 := by
+              intro w2 w3 hbody t0
+              obtain ⟨⟨t1, hs1⟩, _⟩ := lowerBlock_sim W hW hS body _ (by exact hn) hsb hbody t0 _ b st1 hb
+              obtain ⟨ev, hev⟩ := wrap_sim W cx.cfg hs1
+              exact ⟨ev, t1, hev⟩
+            obtain ⟨vs, t3, hit⟩ := whileIter_sim W (wrapExprs cx.cfg b) hct hstep hiter t
+            have hloop : Ev W (.listComp (wrapExprs cx.cfg b) [.mk (.name whileCounter) (takewhileIter test) [] false]) u t (W.listOf vs) u1 t3 :=
+              .whileComp _ _ hit
+            obtain ⟨⟨t4, ro⟩, _⟩ := lowerBlock_sim W hW hS orelse cx hn hso horelse t3 st1 o st2 ho
+            simp only [Bool.false_eq_true, if_false, List.nil_append]
+            by_cases hoi : o.isEmpty = true
+            · have : o = [] := by simpa using hoi
+              subst this
+              obtain ⟨rfl, rfl⟩ := seq_nil_inv ro
+              simp only [List.isEmpty_nil, if_true, List.append_nil]
+              exact ⟨⟨_, Seq.cons hloop (Seq.nil W _ _)⟩, hflags⟩
+            · obtain ⟨v, hv⟩ := wrap_sim W cx.cfg ro
+              simp only [hoi, Bool.false_eq_true, if_false]
+              exact ⟨⟨t4, Seq.cons hloop (Seq.cons hv (Seq.nil W _ _))⟩, hflags⟩
     | .for_ target iter body orelse, cx, hn, hs, u, u', hx, t, st, es, st', h => by
         cases hs with
         | for_ _ _ _ _ hst hci hsb hso =>
@@ -573,12 +643,11 @@ mutual
               · obtain ⟨v, hv⟩ := wrap_sim W cx.cfg ro
                 simp only [hoi, Bool.false_eq_true, if_false]
                 exact ⟨⟨t4, Seq.cons hloop (Seq.cons hv (Seq.nil W _ _))⟩, hflags⟩
-    | .expr e, cx, hn, hs, _, _, hx, t, st, es, st', h => lowerSimple_sim W hS cx hn hs (by intro c b e h; cases h) (by intro tg i b e h; cases h) hx t st es st' h
-    | .pass_, cx, hn, hs, _, _, hx, t, st, es, st', h => lowerSimple_sim W hS cx hn hs (by intro c b e h; cases h) (by intro tg i b e h; cases h) hx t st es st' h
-    | .global_ _, cx, hn, hs, _, _, hx, t, st, es, st', h => lowerSimple_sim W hS cx hn hs (by intro c b e h; cases h) (by intro tg i b e h; cases h) hx t st es st' h
-    | .assign _ _, cx, hn, hs, _, _, hx, t, st, es, st', h => lowerSimple_sim W hS cx hn hs (by intro c b e h; cases h) (by intro tg i b e h; cases h) hx t st es st' h
-    | .augAssign _ _ _, cx, hn, hs, _, _, hx, t, st, es, st', h => lowerSimple_sim W hS cx hn hs (by intro c b e h; cases h) (by intro tg i b e h; cases h) hx t st es st' h
-    | .while_ .., _, _, hs, _, _, _, _, _, _, _, _ => by cases hs
+    | .expr e, cx, hn, hs, _, _, hx, t, st, es, st', h => lowerSimple_sim W hS cx hn hs (by intro c b e h; cases h) (by intro tg i b e h; cases h) (by intro c b e h; cases h) hx t st es st' h
+    | .pass_, cx, hn, hs, _, _, hx, t, st, es, st', h => lowerSimple_sim W hS cx hn hs (by intro c b e h; cases h) (by intro tg i b e h; cases h) (by intro c b e h; cases h) hx t st es st' h
+    | .global_ _, cx, hn, hs, _, _, hx, t, st, es, st', h => lowerSimple_sim W hS cx hn hs (by intro c b e h; cases h) (by intro tg i b e h; cases h) (by intro c b e h; cases h) hx t st es st' h
+    | .assign _ _, cx, hn, hs, _, _, hx, t, st, es, st', h => lowerSimple_sim W hS cx hn hs (by intro c b e h; cases h) (by intro tg i b e h; cases h) (by intro c b e h; cases h) hx t st es st' h
+    | .augAssign _ _ _, cx, hn, hs, _, _, hx, t, st, es, st', h => lowerSimple_sim W hS cx hn hs (by intro c b e h; cases h) (by intro tg i b e h; cases h) (by intro c b e h; cases h) hx t st es st' h
     | .break_, _, _, hs, _, _, _, _, _, _, _, _ => by cases hs
     | .continue_, _, _, hs, _, _, _, _, _, _, _, _ => by cases hs
     | .annAssign .., _, _, hs, _, _, _, _, _, _, _, _ => by cases hs
@@ -590,11 +659,11 @@ mutual
     | .importFrom .., _, _, hs, _, _, _, _, _, _, _, _ => by cases hs
     | .other .., _, _, hs, _, _, _, _, _, _, _, _ => by cases hs
 
-  theorem lowerBlock_sim (W : World U V) (hW : Lawful W) (hS : LawfulSeq W) : ∀ (ss : List Stmt) (cx : Ctx), cx.nsp.kind = .module →
-      (∀ s ∈ ss, SimpleS s) → ∀ {u u' : U}, ExecB W ss u u' → ∀ (t : T V) (st : St) (es : List Expr) (st' : St),
-      lowerBlock cx ss st = .ok (es, st') → (∃ t', Seq W es u t u' t') ∧ sameFlags st' st
+  theorem lowerBlock_sim {w : Bool} (W : World U V) (hW : Lawful W) (hS : LawfulSeq W) : ∀ (ss : List Stmt) (cx : Ctx), cx.nsp.kind = .module →
+      (∀ s ∈ ss, SimpleS w s) → ∀ {u u' : U}, ExecB W ss u u' → ∀ (t : T V) (st : St) (es : List Expr) (st' : St),
+      lowerBlock cx ss st = .ok (es, st') → (∃ t', Seq W es u t u' t') ∧ okFlags w st' st
     | [], cx, _, _, _, _, .nil _, t, st, es, st', h => by
-        simp only [lowerBlock] at h; cases h; exact ⟨⟨t, Seq.nil W _ _⟩, sameFlags_refl _⟩
+        simp only [lowerBlock] at h; cases h; exact ⟨⟨t, Seq.nil W _ _⟩, okFlags_refl _⟩
     | s :: ss, cx, hn, hs, _, _, .cons h1 h2, t, st, es, st', h => by
         simp only [lowerBlock] at h
         obtain ⟨⟨a, st1⟩, ha, h⟩ := bind_ok h
@@ -610,16 +679,16 @@ mutual
           obtain ⟨⟨rest, st2⟩, hr, h⟩ := bind_ok h
           cases pure_ok h
           obtain ⟨⟨t2, r2⟩, f2⟩ := lowerBlock_sim W hW hS ss cx hn (fun x hx => hs x (by simp [hx])) h2 t1 st1 rest st2 hr
-          exact ⟨⟨t2, Seq.append r1 r2⟩, sameFlags_trans f2 f1⟩
+          exact ⟨⟨t2, Seq.append r1 r2⟩, okFlags_trans f2 f1⟩
 end
 
 /-! ### the module -/
 
-theorem goModule_sim (W : World U V) (hW : Lawful W) (hS : LawfulSeq W) (cx : Ctx) (hn : cx.nsp.kind = .module) :
-    ∀ (ss : List Stmt), (∀ s ∈ ss, SimpleS s) → ∀ {u u' : U}, ExecB W ss u u' → ∀ (t : T V) (st : St) (es : List Expr) (st' : St),
-      lowerFull.goModule cx ss st = .ok (es, st') → (∃ t', Seq W es u t u' t') ∧ sameFlags st' st
+theorem goModule_sim {w : Bool} (W : World U V) (hW : Lawful W) (hS : LawfulSeq W) (cx : Ctx) (hn : cx.nsp.kind = .module) :
+    ∀ (ss : List Stmt), (∀ s ∈ ss, SimpleS w s) → ∀ {u u' : U}, ExecB W ss u u' → ∀ (t : T V) (st : St) (es : List Expr) (st' : St),
+      lowerFull.goModule cx ss st = .ok (es, st') → (∃ t', Seq W es u t u' t') ∧ okFlags w st' st
   | [], _, _, _, .nil _, t, st, es, st', h => by
-      simp only [lowerFull.goModule] at h; cases h; exact ⟨⟨t, Seq.nil W _ _⟩, sameFlags_refl _⟩
+      simp only [lowerFull.goModule] at h; cases h; exact ⟨⟨t, Seq.nil W _ _⟩, okFlags_refl _⟩
   | s :: ss, hs, _, _, .cons h1 h2, t, st, es, st', h => by
       simp only [lowerFull.goModule] at h
       obtain ⟨⟨a, st1⟩, ha, h⟩ := bind_ok h
@@ -627,13 +696,13 @@ theorem goModule_sim (W : World U V) (hW : Lawful W) (hS : LawfulSeq W) (cx : Ct
       cases pure_ok h
       obtain ⟨⟨t1, r1⟩, f1⟩ := lowerStmt_sim W hW hS s cx hn (hs s (by simp)) h1 t st a st1 ha
       obtain ⟨⟨t2, r2⟩, f2⟩ := goModule_sim W hW hS cx hn ss (fun x hx => hs x (by simp [hx])) h2 t1 st1 b st2 hb
-      exact ⟨⟨t2, Seq.append r1 r2⟩, sameFlags_trans f2 f1⟩
+      exact ⟨⟨t2, Seq.append r1 r2⟩, okFlags_trans f2 f1⟩
 
 /-- **Module code of the fragment means the same after conversion - for every lawful world.**  Whenever
     the source statements run from user state `u` to `u'`, the one expression the conversion returns
     evaluates from `u` to `u'` (the helper variables it creates are in `t'`, apart from the user
     state), under either wrapper and either if-style. -/
-theorem module_sim (W : World U V) (hW : Lawful W) (hS : LawfulSeq W) (cfg : Cfg) (root : SymScope) (body : List Stmt) (hs : ∀ s ∈ body, SimpleS s)
+theorem module_sim (W : World U V) (hW : Lawful W) (hS : LawfulSeq W) (cfg : Cfg) (root : SymScope) (body : List Stmt) (hs : ∀ s ∈ body, SimpleS false s)
     (e : Expr) (h : lowerFull cfg root body = .ok e) {u u' : U} (hx : ExecB W body u u') :
     ∃ v t', Ev W e u [] v u' t' := by
   unfold lowerFull at h
@@ -648,5 +717,30 @@ theorem module_sim (W : World U V) (hW : Lawful W) (hS : LawfulSeq W) (cfg : Cfg
   simp only [f1, f2, f3, Bool.false_eq_true, if_false]
   obtain ⟨v, hv⟩ := wrap_sim W cfg r
   exact ⟨v, t', hv⟩
+
+/-- the helper import the module prelude puts in front when a `while` was lowered -/
+def itertoolsImport : Expr := .namedExpr "itertools" (.call (.name "__import__") [Expr.str "itertools"] [])
+
+/-- **With `while`.**  The converted expression is the wrapper around the lowered statements `b`, possibly
+    preceded by the one helper import `itertools := __import__('itertools')` (a name the property allows
+    the converted program to add; its effect is not modelled: the rule for the takewhile comprehension
+    assumes `itertools` names the module); evaluated from `u`, the lowered statements reach `u'`. -/
+theorem module_sim_while (W : World U V) (hW : Lawful W) (hS : LawfulSeq W) (cfg : Cfg) (root : SymScope) (body : List Stmt)
+    (hs : ∀ s ∈ body, SimpleS true s) (e : Expr) (h : lowerFull cfg root body = .ok e) {u u' : U} (hx : ExecB W body u u') :
+    ∃ b t', (e = wrapExprs cfg b ∨ e = wrapExprs cfg (itertoolsImport :: b)) ∧ Seq W b u [] u' t' := by
+  unfold lowerFull at h
+  obtain ⟨⟨g, sup⟩, hg, h⟩ := bind_ok h
+  simp only [] at h
+  obtain ⟨⟨b, st⟩, hb, h⟩ := bind_ok h
+  cases pure_ok h
+  have hk : g.kind = .module := generateNsp_kind hg
+  obtain ⟨⟨t', r⟩, fl⟩ := goModule_sim W hW hS { cfg := cfg, nsp := g, loops := [], fnUsed := false } hk body hs hx [] _ b st hb
+  obtain ⟨f1, f2, _⟩ := fl
+  simp only [] at f1 f2
+  refine ⟨b, t', ?_, r⟩
+  simp only [f1, f2, Bool.false_eq_true, if_false]
+  cases st.useItertools
+  · left; simp
+  · right; simp [itertoolsImport]
 
 end OlVerif.Sem
